@@ -37,11 +37,16 @@ var verifC02Shapes = []verifC02Shape{
 	{"s.csv", "a,b\n\"p,q\",\n", "a,b\n\"p,q\",\n1,2\n3,4\n", false, 0, 2, []string{"p,q", "\x00", "1", "2", "3", "4"}},
 	{"s.csv", "a,b\r\n", "a,b\r\n1,2\r\n3,4\r\n", false, 0, 2, []string{"1", "2", "3", "4"}},
 	{"s.tsv", "a\tb\r\n1\tx\r\n", "a\tb\r\n1\tx\r\n1\t2\r\n3\t4\r\n", false, 0, 2, []string{"1", "x", "1", "2", "3", "4"}},
+	// LTSV has no header line: the line break is seen on the first record
+	{"s.ltsv", "a:1\tb:x\r\n", "a:1\tb:x\r\na:1\tb:2\r\na:3\tb:4\r\n", false, 0, 2, []string{"1", "x", "1", "2", "3", "4"}},
+	{"s.ltsv", "a:1\tb:x\n", "a:1\tb:x\na:1\tb:2\na:3\tb:4\n", false, 0, 2, []string{"1", "x", "1", "2", "3", "4"}},
+	{"s.ltsv", "a:1\tb:x", "a:1\tb:x\na:1\tb:2\na:3\tb:4\n", false, 0, 2, []string{"1", "x", "1", "2", "3", "4"}},
+	{"s.ltsv", "a:1\tb:x\r\na:5\tb:\r\n", "a:1\tb:x\r\na:5\tb:\r\na:1\tb:2\r\na:3\tb:4\r\n", false, 0, 2, []string{"1", "x", "5", "\x00", "1", "2", "3", "4"}},
 }
-var verifC02ShapeIns, verifC02ShapeSel [2][]parser.Statement
+var verifC02ShapeIns, verifC02ShapeSel [3][]parser.Statement
 
 func VerifC02ShapesSetup() {
-	for i, n := range []string{"`s.csv`", "`s.tsv`"} {
+	for i, n := range []string{"`s.csv`", "`s.tsv`", "`s.ltsv`"} {
 		verifC02ShapeIns[i] = verifParse("insert into " + n + " values ('1', '2'), ('3', '4'); commit;")
 		verifC02ShapeSel[i] = verifParse("select * from " + n + ";")
 	}
@@ -53,6 +58,8 @@ func VerifC02UpdatedShapes() {
 	fi := 0
 	if sh.file == "s.tsv" {
 		fi = 1
+	} else if sh.file == "s.ltsv" {
+		fi = 2
 	}
 	verifFileWrite(sh.file, sh.old)
 	run := func(stmts []parser.Statement, keep bool) (*Transaction, error) {
@@ -101,6 +108,7 @@ func VerifC02UpdatedShapes() {
 		}
 	}
 	verifAssert("no control files remain", verifFileList() == sh.file)
+	verifObserve("records", int64(v.RecordLen()))
 	verifReach("end")
 }
 
